@@ -347,6 +347,8 @@ def b_dict(ex, v=None, **kw):
             if kw:
                 raise Unsupported('dict(symbolic, **kw)')
             return SDict(v.keys, v.vals)
+        elif isinstance(v, Obj) and ex.models.get(v.cls) is not None and hasattr(ex.models[v.cls], 'm_items'):
+            out.update(dict(ex.iterate(ex.models[v.cls].m_items(ex, v))))
         else:
             for pair in ex.iterate(v):
                 k, x = pair
